@@ -368,10 +368,55 @@ func compareGlob(sys *tarfs.FS, t *otree, pats []string) []failure {
 			fails = append(fails, failure{"glob", fmt.Sprintf("Glob(%q) is not sorted: %q", pat, got)})
 		}
 		if strings.Join(g, "\x00") != strings.Join(exp, "\x00") {
-			fails = append(fails, failure{"glob", fmt.Sprintf("Glob(%q) = %q, the extraction has %q", pat, clipList(g), clipList(exp))})
+			kind := "glob"
+			if t.flags.hlAlias && onlyAliasHardlinksMissing(t, want, g, exp) {
+				// The names missing from the answer are exactly hard links whose
+				// target is spelled through a link (removed by New as dangling).
+				kind = "hardlink-missing"
+			}
+			fails = append(fails, failure{kind, fmt.Sprintf("Glob(%q) = %q, the extraction has %q", pat, clipList(g), clipList(exp))})
 		}
 	}
 	return fails
+}
+
+// onlyAliasHardlinksMissing: got is exp minus a non-empty set of names, each of
+// which is a hard link whose target spelling is not the name its file was
+// registered under (the shape of the finding hardlink-alias-target).
+func onlyAliasHardlinksMissing(t *otree, want []oentry, got, exp []string) bool {
+	have := map[string]bool{}
+	for _, n := range got {
+		have[n] = true
+	}
+	inExp := map[string]bool{}
+	for _, n := range exp {
+		inExp[n] = true
+	}
+	for _, n := range got {
+		if !inExp[n] {
+			return false
+		}
+	}
+	byPath := map[string]*onode{}
+	for _, w := range want {
+		byPath[w.path] = w.node
+	}
+	missing := 0
+	for _, n := range exp {
+		if have[n] {
+			continue
+		}
+		missing++
+		nd := byPath[n]
+		if nd == nil || nd.kind != 'h' {
+			return false
+		}
+		first, _ := t.resolve(lexClean(nd.target), false)
+		if first == nil || first.lit == strings.Join(lexClean(nd.target), "/") {
+			return false
+		}
+	}
+	return missing > 0
 }
 
 func clipList(xs []string) []string {
